@@ -9,6 +9,7 @@ mod iters;
 mod meta;
 mod opts;
 mod rows;
+mod savelog;
 mod tok;
 mod util;
 
@@ -28,6 +29,7 @@ fn main() {
         "meta" => meta::cmd_meta(&opts),
         "escape" => escape::cmd_escape(&opts),
         "opts" => opts::cmd_opts(&opts),
+        "savelog" => savelog::cmd_savelog(&opts),
         c => {
             eprintln!("unknown command {}", c);
             std::process::exit(2)
